@@ -42,6 +42,12 @@ class Atom:
     def rng(self) -> Tuple[Num, Num]:
         raise NotImplementedError
 
+    def __deepcopy__(self, memo):      # immutable
+        return self
+
+    def __copy__(self):
+        return self
+
     def __eq__(self, other):
         return isinstance(other, Atom) and self.key == other.key
 
@@ -179,6 +185,12 @@ class Lin:
                     t = _merge_slices(t)
             self.terms = tuple(t.items())
 
+    def __deepcopy__(self, memo):      # immutable (the cached key aside)
+        return self
+
+    def __copy__(self):
+        return self
+
     @property
     def key(self):
         k = self._key
@@ -222,6 +234,17 @@ class Lin:
                         rec(x)
         rec(self)
         return out
+
+    def has_opaque(self) -> bool:
+        """True if an Opaque atom occurs anywhere in the form (also inside %, //, function arguments)"""
+        for a, _ in self.terms:
+            if isinstance(a, Opaque):
+                return True
+            if isinstance(a, (ModA, DivA)) and a.lin.has_opaque():
+                return True
+            if isinstance(a, Fn) and any(x.has_opaque() for x in a.args):
+                return True
+        return False
 
     def has_residual(self) -> bool:
         """True if an Opaque/Mod/Div atom occurs (form is exact but not fully simplified)"""
@@ -325,6 +348,30 @@ def _merge_slices(t: Dict[Atom, int]) -> Dict[Atom, int]:
     if not by_sym:
         return t
     t = dict(t)
+    # c*S[a:b] - c*S[a:k]  ->  c*2**(k-a)*S[k:b]   (clearing the low part of a field; a bare non-negative S counts as S[0:])
+    for key, lst in list(by_sym.items()):
+        sym = lst[0][0].sym
+        again = True
+        while again:
+            again = False
+            whole = [(sym, t[sym])] if (sym in t and sym.lo is not None and sym.lo >= 0) else []
+            cur = [(a, c) for a, c in t.items() if isinstance(a, Slice) and a.sym.key == key]
+            for big, cb in whole + cur:
+                ba, bb = (0, None) if isinstance(big, Sym) else (big.a, big.b)
+                for small, cs in cur:
+                    if small is big or small.a != ba or small.b is None or cs != -cb:
+                        continue
+                    if bb is not None and small.b >= bb:
+                        continue
+                    rest = Slice(sym, small.b, bb)
+                    del t[big]
+                    del t[small]
+                    t[rest] = t.get(rest, 0) + cb * (1 << (small.b - ba))
+                    again = True
+                    break
+                if again:
+                    break
+        by_sym[key] = [(a, c) for a, c in t.items() if isinstance(a, Slice) and a.sym.key == key]
     for key, lst in by_sym.items():
         changed = True
         while changed:
